@@ -12,15 +12,31 @@ Semantics assumed for numpy on float64 arrays (part of the trusted base, exercis
   min(max(x,lo),hi)`; `np.where(c,a,b)`; `a[m] = v` (boolean mask store) `= where(m, v, a)` when every array read in `v`
   is read under the same mask; `x % m = x - m*floor(x/m)`; `np.radians/np.degrees` multiply by pi/180, 180/pi;
   `np.pi` is the model's `Scalar.pi`.
+  Extensions (radio chain): a Boolean mask used as a factor/summand of a real array is 1.0 where it holds and 0.0 elsewhere
+  (`E * mask`); `np.ones(shape)` / `np.zeros(shape)` with a shape read from a symbolic array are the constants 1.0 / 0.0 of
+  the elementwise view (shapes and `.T` of (events x bins) arrays are not modelled: every value stands for one element, an
+  event-wise factor is broadcast over the bins); a *short fixed-length last axis* (a list of frequency bins) is a `Vec`:
+  arithmetic and the unary/binary tables act elementwise on it, a scalar is broadcast, `np.sum(v)` / `np.sum(v, axis=1|-1)`
+  is `Scalar.sum [v0, …]` (left to right from 0; numpy's summation order differs, which the Float comparison absorbs in its
+  tolerance) — `np.sum(v)` without axis is read as the sum over the listed elements only (the value must have no further axis).
+  `Scalar.minS/maxS` (np.minimum/np.maximum/np.clip) agree with numpy on non-NaN operands only (numpy propagates NaN).
+  Calls of functions/methods whose source is in the working tree are *inlined* (translated recursively with the arguments
+  bound; undecorated plain functions, methods of `self`, or callables named in `FnSpec.inline`); a callee that stores on its
+  object or returns nothing is not inlined.  The same call evaluated in the live module when all its arguments are concrete
+  stays a folded constant unless the callee is named in `FnSpec.inline`.
+  Inputs that are not parameters: `FnSpec.opaque` (the result of a call: table look-ups, random numbers — one input per
+  name, or one per call site), `FnSpec.opaque_locals` (a local whose defining statement is not read: fancy indexing,
+  argmin over a table); a local declared unread (None) poisons every expression that uses it.
 
 What is NOT translated (raises `Unsupported`, i.e. the regeneration fails and the tie is reported broken): loops over
-symbolic data, reductions, fancy indexing, try/with, raise on a symbolic path, calls into third-party code with symbolic
+symbolic data, reductions over an axis of unknown length, fancy indexing, try/with, raise on a symbolic path, calls into third-party code with symbolic
 arguments that are not in the table below and not declared opaque.
 """
 from __future__ import annotations
 
 import ast
 import builtins
+import copy
 import hashlib
 import inspect
 import math
@@ -53,6 +69,18 @@ class SymB:
 
     def __repr__(self):
         return f"SymB({self.lean})"
+
+
+class Vec(tuple):
+    """a short fixed-length last axis (e.g. the frequency bins of one band): elementwise arithmetic, scalars broadcast"""
+
+
+class Poison:
+    """a local that the spec declares unread (`opaque_locals[name] = None`): its right-hand side is not translated and any
+    use of it in a translated expression raises `Unsupported`"""
+
+    def __init__(self, name):
+        self.name = name
 
 
 class Masked:
@@ -158,11 +186,21 @@ class FnSpec:
     module      : dotted module name inside /repo's package (imported from the working tree)
     qualname    : `func` or `Class.method`
     name        : Lean name of the generated definition
-    sym_params  : python parameter -> lean name, or -> tuple of lean names (a parameter that is unpacked)
-    sym_attrs   : dotted attribute path (`self.core_alt`, `spectra.index`) -> lean name   (ordered)
+    sym_params  : python parameter -> lean name, or -> tuple of lean names (a parameter that is unpacked), or -> list of
+                  lean names (a `Vec`: an array whose last axis has that fixed length)
+    sym_attrs   : dotted attribute path (`self.core_alt`, `spectra.index`) -> lean name   (ordered); a tuple of lean names
+                  makes the attribute a sequence of inputs (`self.params[2]`)
     concrete    : python parameter -> concrete value (e.g. a live spectrum object, or None)
     self_obj    : a live instance for methods (attribute reads that are neither stored nor symbolic are evaluated on it)
-    opaque      : dotted callee text -> lean name(s) of fresh inputs standing for its result
+    opaque      : dotted callee text -> lean name(s) of fresh inputs standing for its result; a *list* of names gives one
+                  fresh input per call site, in the order in which the sites are first reached
+    opaque_locals : python local -> lean name | list of lean names (a `Vec`) | None.  An assignment `local = <expr>` is not
+                  translated: the local IS the fresh input (table look-ups, fancy indexing); None = the local is never
+                  read by the translated part (reading it raises `Unsupported`).  One assignment statement per local.
+    inline      : dotted callee text -> None | FnSpec (only its sym_attrs/opaque/opaque_locals/inline are used).  The call is
+                  translated by inlining the callee's source even when all its arguments are concrete (None: the callee
+                  inherits this spec's opaque/inline tables); with a FnSpec the callee (e.g. a live object's `__call__`)
+                  is read with its own declarations, whose fresh inputs become inputs of this definition.
     outputs     : for methods that store on self and return nothing: the attributes to export (ordered); None = all stored
     """
     module: str
@@ -175,6 +213,8 @@ class FnSpec:
     opaque: dict = field(default_factory=dict)
     outputs: list | None = None
     doc: str = ""
+    opaque_locals: dict = field(default_factory=dict)
+    inline: dict = field(default_factory=dict)
 
 
 class Result:
@@ -214,6 +254,8 @@ class Result:
                 out.append(f"  {k} : {'Bool' if isinstance(v, SymB) else 'α'}")
             out.append("")
         doc = (s.doc + "\n" if s.doc else "") + f"translated from `{s.module}.{s.qualname}` ({self.src_loc}, sha256 of the function source {self.src_sha[:16]})"
+        if getattr(self, "inlined", None):
+            doc += "\ninlined callees: " + ", ".join(f"`{n}`" for n in self.inlined)
         out.append(f"/-- {doc} -/")
         ps = " ".join(self.params)
         out.append(f"def {s.name} ({ps} : α) : {self.ret_type()} :=" if self.params else f"def {s.name} : {self.ret_type()} :=")
@@ -270,14 +312,35 @@ class Translator:
             self.used.add(n)
             self.params.append(n)
         for v in spec.sym_params.values():
-            for n in (v if isinstance(v, tuple) else (v,)):
+            for n in (v if isinstance(v, (tuple, list)) else (v,)):
                 reg(n)
-        for v in spec.sym_attrs.values():
-            if v not in self.params:
-                reg(v)
-        for v in spec.opaque.values():
-            for n in (v if isinstance(v, tuple) else (v,)):
-                reg(n)
+
+        def reg_spec(sp, seen):
+            if id(sp) in seen:
+                return
+            seen.add(id(sp))
+            for v in sp.sym_attrs.values():
+                for n in (v if isinstance(v, (tuple, list)) else (v,)):
+                    if n not in self.params:
+                        reg(n)
+            for v in sp.opaque.values():
+                for n in (v if isinstance(v, (tuple, list)) else (v,)):
+                    if n not in self.params:
+                        reg(n)
+            for v in sp.opaque_locals.values():
+                for n in (() if v is None else v if isinstance(v, (tuple, list)) else (v,)):
+                    reg(n)
+            for sub in sp.inline.values():
+                if sub is not None:
+                    reg_spec(sub, seen)
+        reg_spec(spec, set())
+        self.repo_src = repo_src
+        self.inlined: list = []      # (callee, AST dump) of every inlined working-tree function, for the source hash
+        self.sites: dict = {}        # (call path, lineno, col) -> lean name of a per-call-site opaque input
+        self.site_count: dict = {}   # (id(spec), callee text) -> number of sites named so far
+        self.local_sites: dict = {}  # (call path, local) -> the one assignment statement that defines an opaque local
+        self.path: tuple = ()        # call sites through which the current function was inlined
+        self.depth = 0
 
     # ------------------------------------------------------------------ helpers
     def fresh(self, base: str) -> str:
@@ -302,12 +365,12 @@ class Translator:
             self.lets.append((n, val.lean))
             return SymB(n)
         if isinstance(val, tuple):
-            return tuple(self.bind(f"{pyname}{i}", v) for i, v in enumerate(val))
+            return type(val)(self.bind(f"{pyname}{i}", v) for i, v in enumerate(val))
         return val
 
     @staticmethod
     def symbolic(v) -> bool:
-        if isinstance(v, (Sym, SymB, Masked)):
+        if isinstance(v, (Sym, SymB, Masked, Poison)):
             return True
         if isinstance(v, (tuple, list)):
             return any(Translator.symbolic(x) for x in v)
@@ -321,7 +384,36 @@ class Translator:
             return self.S(v.val)
         if isinstance(v, SymB):
             raise Unsupported("a Boolean array used as a number")
+        if isinstance(v, Poison):
+            raise Unsupported(f"local `{v.name}` is declared unread (opaque_locals) but is used")
+        if isinstance(v, (tuple, list)):
+            raise Unsupported("a sequence used as a number")
         return lit(v)
+
+    def N(self, v) -> str:
+        """operand of + - * /: a Boolean mask counts as 1.0 / 0.0 (numpy's cast of bool to float64)"""
+        if isinstance(v, SymB):
+            return f"(if {v.lean} then (1.0 : α) else (0.0 : α))"
+        return self.S(v)
+
+    @staticmethod
+    def is_vec(v) -> bool:
+        return isinstance(v, Vec) or (isinstance(v, np.ndarray) and v.ndim == 1 and v.dtype.kind in "fiu")
+
+    def lift(self, fn, *args):
+        """apply a scalar rule elementwise over `Vec` operands (scalars are broadcast)"""
+        n = None
+        for a in args:
+            if self.is_vec(a):
+                if n is not None and len(a) != n:
+                    raise Unsupported(f"elementwise operation on vectors of lengths {n} and {len(a)}")
+                n = len(a)
+        if n is None:
+            return fn(*args)
+        if n > 64:
+            raise Unsupported(f"a vector of {n} elements is not unrolled")
+        cols = [list(a) if self.is_vec(a) else [a] * n for a in args]
+        return Vec(fn(*xs) for xs in zip(*cols))
 
     def B(self, v) -> str:
         if isinstance(v, SymB):
@@ -354,7 +446,7 @@ class Translator:
                     return False
             elif isinstance(sub, ast.Call):
                 p = dotted(sub.func)
-                if p is not None and p in self.spec.opaque:
+                if p is not None and (p in self.spec.opaque or p in self.spec.inline):
                     return False
                 if isinstance(sub.func, (ast.Name, ast.Attribute)):
                     try:
@@ -400,7 +492,10 @@ class Translator:
         return m(node, st)
 
     def ev_Name(self, node, st):
-        return st[0][node.id]
+        v = st[0][node.id]
+        if isinstance(v, Poison):
+            raise Unsupported(f"local `{v.name}` is declared unread (opaque_locals) but is used")
+        return v
 
     def ev_Attribute(self, node, st):
         env, stored = st
@@ -409,11 +504,12 @@ class Translator:
             if p in stored:
                 return stored[p]
             if p in self.spec.sym_attrs:
-                return Sym(self.spec.sym_attrs[p])
+                v = self.spec.sym_attrs[p]
+                return tuple(Sym(n) for n in v) if isinstance(v, (tuple, list)) else Sym(v)
         if node.attr == "pi":
             return Sym("Scalar.pi")
         base = self.ev(node.value, st)
-        if isinstance(base, (Sym, Masked)) and node.attr in ("value", "real", "T"):
+        if isinstance(base, (Sym, Masked, Vec)) and node.attr in ("value", "real", "T"):
             return base
         raise Unsupported(f"attribute `{ast.unparse(node)}` of a symbolic value")
 
@@ -425,7 +521,7 @@ class Translator:
     def ev_UnaryOp(self, node, st):
         v = self.ev(node.operand, st)
         if isinstance(node.op, ast.USub):
-            return Sym(f"(-{self.S(v)})")
+            return self.lift(lambda x: Sym(f"(-{self.S(x)})"), v)
         if isinstance(node.op, ast.UAdd):
             return v
         if isinstance(node.op, (ast.Invert, ast.Not)):
@@ -433,16 +529,17 @@ class Translator:
         raise Unsupported(ast.unparse(node))
 
     def arith(self, op, a, b, text=""):
+        if self.is_vec(a) or self.is_vec(b):
+            if isinstance(a, tuple) and not isinstance(a, Vec) or isinstance(b, tuple) and not isinstance(b, Vec):
+                raise Unsupported(f"arithmetic between an array and a Python tuple in `{text}`")
+            return self.lift(lambda x, y: self.arith(op, x, y, text), a, b)
         if isinstance(op, (ast.BitAnd, ast.BitOr)) and (isinstance(a, SymB) or isinstance(b, SymB)):
             return SymB(f"({self.B(a)} {'&&' if isinstance(op, ast.BitAnd) else '||'} {self.B(b)})")
-        if isinstance(op, ast.Add):
-            return Sym(f"({self.S(a)} + {self.S(b)})")
-        if isinstance(op, ast.Sub):
-            return Sym(f"({self.S(a)} - {self.S(b)})")
-        if isinstance(op, ast.Mult):
-            return Sym(f"({self.S(a)} * {self.S(b)})")
-        if isinstance(op, ast.Div):
-            return Sym(f"({self.S(a)} / {self.S(b)})")
+        if isinstance(op, (ast.Add, ast.Sub, ast.Mult, ast.Div)):
+            if isinstance(a, (SymB, bool, np.bool_)) and isinstance(b, (SymB, bool, np.bool_)):
+                raise Unsupported(f"arithmetic between two Boolean arrays in `{text}`")
+            o = {ast.Add: "+", ast.Sub: "-", ast.Mult: "*", ast.Div: "/"}[type(op)]
+            return Sym(f"({self.N(a)} {o} {self.N(b)})")
         if isinstance(op, ast.Mod):
             return Sym(f"({self.S(a)} - {self.S(b)} * Scalar.floor ({self.S(a)} / {self.S(b)}))")
         if isinstance(op, ast.Pow):
@@ -495,6 +592,8 @@ class Translator:
         return SymB("(" + j.join(self.B(v) for v in vals) + ")")
 
     def ite(self, c, a, b):
+        if isinstance(a, Vec) or isinstance(b, Vec):
+            return self.lift(lambda x, y: self.ite(c, x, y), a, b)
         if isinstance(a, tuple) and isinstance(b, tuple) and len(a) == len(b):
             return tuple(self.ite(c, x, y) for x, y in zip(a, b))
         if isinstance(a, dict) and isinstance(b, dict):
@@ -525,10 +624,26 @@ class Translator:
         p = dotted(node.func)
         if p is not None and p in self.spec.opaque:
             v = self.spec.opaque[p]
+            if isinstance(v, list):
+                # one fresh input per call site (the same site reached again — both arms of a symbolic `if` — is the same input)
+                key = (self.path, node.lineno, node.col_offset)
+                if key not in self.sites:
+                    k = self.site_count.get((id(self.spec), p), 0)
+                    if k >= len(v):
+                        raise Unsupported(f"`{p}` is called at more sites than the {len(v)} names declared for it")
+                    self.site_count[(id(self.spec), p)] = k + 1
+                    self.sites[key] = v[k]
+                return Sym(self.sites[key])
             return tuple(Sym(n) for n in v) if isinstance(v, tuple) else Sym(v)
         f = self.resolve(node.func, st)
+        if f is np.ones or f is np.zeros:
+            # reached only when the shape argument is read from a symbolic array: the constant of the elementwise view
+            return 1.0 if f is np.ones else 0.0
         args = [self.ev(a, st) for a in node.args]
         kw = {k.arg: self.ev(k.value, st) for k in node.keywords}
+        tgt = self.inline_target(node, p, f)
+        if tgt is not None:
+            return self.inline_call(node, p, tgt, args, kw)
         if f is None:
             # method of a symbolic value: x.copy(), x.astype(float)
             if isinstance(node.func, ast.Attribute):
@@ -541,18 +656,25 @@ class Translator:
         except Exception:  # noqa
             hashable = False
         if hashable and f in UNARY and len(args) == 1:
-            return Sym(f"({UNARY[f]} {self.S(args[0])})")
+            return self.lift(lambda x: Sym(f"({UNARY[f]} {self.S(x)})"), args[0])
         if hashable and f in IDENTITY and len(args) >= 1:
             return args[0]
         if hashable and f in BINARY and len(args) == 2:
             o = BINARY[f]
             if o in "+-*/":
-                return Sym(f"({self.S(args[0])} {o} {self.S(args[1])})")
-            return Sym(f"({o} {self.S(args[0])} {self.S(args[1])})")
+                return self.lift(lambda x, y: Sym(f"({self.S(x)} {o} {self.S(y)})"), args[0], args[1])
+            return self.lift(lambda x, y: Sym(f"({o} {self.S(x)} {self.S(y)})"), args[0], args[1])
         if f is np.reciprocal:
-            return Sym(f"((1.0 : α) / {self.S(args[0])})")
+            return self.lift(lambda x: Sym(f"((1.0 : α) / {self.S(x)})"), args[0])
         if f is np.square:
-            return Sym(f"({self.S(args[0])} * {self.S(args[0])})")
+            return self.lift(lambda x: Sym(f"({self.S(x)} * {self.S(x)})"), args[0])
+        if f is np.sum and len(args) == 1:
+            axis = kw.get("axis")
+            if not isinstance(args[0], Vec):
+                raise Unsupported(f"`{ast.unparse(node)}`: a reduction over an axis of unknown length (declare it opaque)")
+            if axis not in (None, 1, -1) or any(k != "axis" for k in kw):
+                raise Unsupported(f"`{ast.unparse(node)}`: only the sum over the listed last axis is translated")
+            return Sym("(Scalar.sum [" + ", ".join(self.S(x) for x in args[0]) + "])")
         if f is np.clip:
             lo = args[1] if len(args) > 1 else kw.get("a_min")
             hi = args[2] if len(args) > 2 else kw.get("a_max")
@@ -581,6 +703,118 @@ class Translator:
                 return args[1]
             return 0.0
         raise Unsupported(f"call `{ast.unparse(node)}`: {getattr(f, '__name__', f)} with symbolic arguments is not in the translation table")
+
+    # ------------------------------------------------------------------ inlining of working-tree callees
+    _ast_cache: dict = {}
+
+    def find_def(self, fnobj):
+        """the FunctionDef of a Python function object whose source file is in the working tree, else None"""
+        try:
+            fnobj = inspect.unwrap(fnobj)
+            if not inspect.isfunction(fnobj) or "<locals>" in fnobj.__qualname__:
+                return None
+            mfile = Path(inspect.getsourcefile(fnobj)).resolve()
+        except Exception:  # noqa
+            return None
+        if self.repo_src.resolve() not in mfile.parents:
+            return None
+        if mfile not in Translator._ast_cache:
+            text = mfile.read_text()
+            Translator._ast_cache[mfile] = (ast.parse(text), text)
+        tree, text = Translator._ast_cache[mfile]
+        node, scope = None, tree.body
+        for part in fnobj.__qualname__.split("."):
+            node = next((n for n in scope if isinstance(n, (ast.FunctionDef, ast.ClassDef)) and n.name == part), None)
+            if node is None:
+                return None
+            scope = node.body
+        if not isinstance(node, ast.FunctionDef):
+            return None
+        node.qualname = fnobj.__qualname__
+        return node, text, inspect.getmodule(fnobj)
+
+    def inline_target(self, node, p, f):
+        """(FunctionDef, file text, module, self object or None, sub-spec or None) when the call is to be inlined"""
+        if f is None:
+            return None
+        explicit = p is not None and p in self.spec.inline
+        self_obj = None
+        fn = f
+        if inspect.ismethod(f):
+            self_obj, fn = f.__self__, f.__func__
+        elif not inspect.isfunction(f) and not inspect.isclass(f) and not inspect.isbuiltin(f) and not isinstance(f, np.ufunc):
+            call = getattr(type(f), "__call__", None)
+            if inspect.isfunction(call) or inspect.isfunction(getattr(call, "__wrapped__", None)):
+                self_obj, fn = f, call
+            else:
+                return None
+        if inspect.isclass(fn):
+            return None
+        d = self.find_def(fn)
+        if d is None:
+            if explicit:
+                raise Unsupported(f"`{p}` is declared inline but its source is not a function of the working tree")
+            return None
+        fdef, text, mod = d
+        if fdef.decorator_list and not explicit:
+            raise Unsupported(f"call of the decorated working-tree function `{p or fdef.name}` (declare it inline or opaque)")
+        if self_obj is not None and self_obj is not self.spec.self_obj and not explicit:
+            raise Unsupported(f"call of a method of another live object `{p or fdef.name}` (declare it inline or opaque)")
+        return fdef, text, mod, self_obj, (self.spec.inline.get(p) if explicit else None)
+
+    def inline_call(self, node, p, tgt, args, kw):
+        fdef, text, mod, self_obj, sub = tgt
+        if self.depth >= 12:
+            raise Unsupported(f"inlining depth exceeded at `{ast.unparse(node)[:60]}`")
+        if sub is None:   # same tables as the caller; the attribute paths of `self` keep their meaning only on the same object
+            sp = FnSpec(mod.__name__, fdef.name, self.spec.name, sym_attrs=(self.spec.sym_attrs if self_obj is self.spec.self_obj and self_obj is not None else {}),
+                        opaque=self.spec.opaque, inline=self.spec.inline, self_obj=self_obj)
+        else:
+            sp = FnSpec(mod.__name__, fdef.name, self.spec.name, sym_attrs=sub.sym_attrs, opaque=sub.opaque,
+                        opaque_locals=sub.opaque_locals, inline=sub.inline, self_obj=self_obj)
+        ch = Translator.__new__(Translator)
+        ch.spec, ch.mod, ch.fn, ch.file_text, ch.globals = sp, mod, fdef, text, dict(vars(mod))
+        ch.src_sha, ch.src_loc, ch.src_text = self.src_sha, self.src_loc, ""
+        ch.lets, ch.used, ch.params = self.lets, self.used, self.params
+        ch.repo_src, ch.sites, ch.site_count, ch.local_sites = self.repo_src, self.sites, self.site_count, self.local_sites
+        ch.path = self.path + ((node.lineno, node.col_offset),)
+        ch.depth = self.depth + 1
+        self.inlined.append((f"{mod.__name__}.{getattr(fdef, 'qualname', fdef.name)}", ast.dump(fdef, include_attributes=False)))
+        ch.inlined = self.inlined
+        a = fdef.args
+        pos = [x.arg for x in a.posonlyargs + a.args]
+        if self_obj is not None:
+            pos = pos[1:]
+        env = {}
+        if len(args) > len(pos) and not a.vararg:
+            raise Unsupported(f"too many positional arguments in `{ast.unparse(node)[:60]}`")
+        for n, v in zip(pos, args):
+            env[n] = v
+        for k, v in kw.items():
+            if k in env:
+                raise Unsupported(f"argument `{k}` given twice in `{ast.unparse(node)[:60]}`")
+            if k in pos or k in [x.arg for x in a.kwonlyargs]:
+                env[k] = v
+            elif not a.kwarg:
+                raise Unsupported(f"keyword argument `{k}` in `{ast.unparse(node)[:60]}`")
+        allp = a.posonlyargs + a.args
+        for arg, dflt in list(zip(allp[len(allp) - len(a.defaults):], a.defaults)) + [(x, d) for x, d in zip(a.kwonlyargs, a.kw_defaults) if d is not None]:
+            if arg.arg not in env and not (self_obj is not None and arg is allp[0]):
+                env[arg.arg] = eval(compile(ast.Expression(body=dflt), "<default>", "eval"), ch.globals, {})
+        for n in pos + [x.arg for x in a.kwonlyargs]:
+            if n not in env:
+                raise Unsupported(f"parameter `{n}` is not bound in `{ast.unparse(node)[:60]}`")
+        if a.vararg:
+            env[a.vararg.arg] = tuple(args[len(pos):])
+        if a.kwarg:
+            env[a.kwarg.arg] = {}
+        st2 = (env, {})
+        r = ch.block(fdef.body, st2)
+        if r is None or r == ("__none__",):
+            raise Unsupported(f"the inlined callee `{fdef.name}` returns nothing")
+        if st2[1]:
+            raise Unsupported(f"the inlined callee `{fdef.name}` stores on its object ({', '.join(st2[1])})")
+        return r
 
     # ------------------------------------------------------------------ statements
     def assign(self, target, val, st, masked_ok=True):
@@ -628,6 +862,18 @@ class Translator:
                 if self.is_concrete(s.value, st):
                     continue  # logging etc.; has no effect on the translated values
                 raise Unsupported(f"statement `{ast.unparse(s)}`")
+            if isinstance(s, (ast.Assign, ast.AnnAssign)) and self.spec.opaque_locals:
+                tg = s.targets if isinstance(s, ast.Assign) else [s.target]
+                if len(tg) == 1 and isinstance(tg[0], ast.Name) and tg[0].id in self.spec.opaque_locals and getattr(s, "value", None) is not None:
+                    nm = tg[0].id
+                    key = (self.path, id(self.spec), nm)
+                    if self.local_sites.setdefault(key, (s.lineno, s.col_offset)) != (s.lineno, s.col_offset):
+                        raise Unsupported(f"the opaque local `{nm}` is assigned by more than one statement")
+                    v = self.spec.opaque_locals[nm]
+                    st[0][nm] = Poison(nm) if v is None else Vec(Sym(x) for x in v) if isinstance(v, list) else Sym(v)
+                    continue
+                if any(isinstance(x, ast.Name) and x.id in self.spec.opaque_locals for t in tg for x in ast.walk(t)):
+                    raise Unsupported(f"the opaque local in `{ast.unparse(s)[:60]}` is assigned in an unpacking")
             if isinstance(s, ast.Assign):
                 v = self.ev(s.value, st)
                 v = self.strip_masks(v)
@@ -637,7 +883,11 @@ class Translator:
                 if s.value is not None:
                     self.assign(s.target, self.strip_masks(self.ev(s.value, st)), st)
             elif isinstance(s, ast.AugAssign):
-                cur = self.ev(s.target, st)
+                tl = copy.deepcopy(s.target)   # the target read as an expression (a concrete one is evaluated in Load context)
+                for sub in ast.walk(tl):
+                    if hasattr(sub, "ctx"):
+                        sub.ctx = ast.Load()
+                cur = self.ev(tl, st)
                 v = self.arith(s.op, cur, self.ev(s.value, st), ast.unparse(s))
                 if isinstance(s.target, ast.Subscript):
                     self.assign(s.target, v, st)
@@ -708,7 +958,7 @@ class Translator:
                 continue
             if n in sp.sym_params:
                 v = sp.sym_params[n]
-                env[n] = tuple(Sym(x) for x in v) if isinstance(v, tuple) else Sym(v)
+                env[n] = Vec(Sym(x) for x in v) if isinstance(v, list) else tuple(Sym(x) for x in v) if isinstance(v, tuple) else Sym(v)
             elif n in sp.concrete:
                 env[n] = sp.concrete[n]
             elif n in defaults:
@@ -742,7 +992,11 @@ class Translator:
                     return tuple(fin(x) for x in v)
                 return v if isinstance(v, (Sym, SymB)) else Sym(lit(v))
             r = fin(r)
-        return Result(sp, self.params, self.lets, r, self.src_sha, self.src_loc)
+        res = Result(sp, self.params, self.lets, r, self.src_sha, self.src_loc)
+        res.inlined = list(dict.fromkeys(n for n, _ in self.inlined))
+        if self.inlined:
+            res.src_sha = hashlib.sha256((self.src_sha + "".join(d for _, d in self.inlined)).encode()).hexdigest()
+        return res
 
 
 def translate(spec: FnSpec, repo_src: Path) -> Result:
